@@ -188,26 +188,27 @@ BOUNDED_NOTE = ("NOT a proof: bound = G1 programs of nesting depth <= 2 plus the
                 "sample of full depth 3; the ground truth is a shadow log kept by the generated managers; `match` statements and >2 items per "
                 "with are not generated")
 PROPS["C01"] = dict(
-    level="exploration", contracts=["contracts.inspect311", "contracts.c01_lemmas", "contracts.lowlevel"],
-    unit_filter=lambda u: not u.name.startswith("C20."),
+    level="exploration", contracts=["contracts.inspect311", "contracts.c01_lemmas", "contracts.lowlevel", "contracts.inspect310"],
+    unit_filter=lambda u: not u.name.startswith("C20.") and u.name != "C02.inspect_frame_310.stack",
     legs=[g1("suspended", PY312, "py312"), g1("suspended", PY311, "py311"), corpus("exits", PY312, "py312"),
           corpus("exits", PY311, "py311", True), g1("suspended", PY310, "py310", vendor=True),
           g1("suspended", PY39, "py39", thorough_only=True, vendor=True), g1("suspended", PY312, "py312", 3, True, stride=40)],
     technique=BOUNDED_TECH + "; sub-lemmas (varint / exception-table decoding, handler-chain walk, the join of block stack and "
               "with-statement table in _contexts_active_by_trickery) discharged deductively",
-    explanation="Deductive sub-lemmas reported alongside the bounded stand-in (they do not make the property proved): _parse_varint and _parse_exception_table decode exactly the spec function of the 3.11+ table format for all byte strings; inspect_frame's handler-chain walk returns the outside-in chain of handlers covering f_lasti (relative to sorted, disjoint table entries); analyze_with_blocks returns a FRESH dict of FRESH Context templates that are obj-less and not exiting (3.12 and 3.10 configurations of the source); _contexts_active_by_trickery joins them correctly: entry j of the result is the j-th block of the block stack whose handler is a key of the table, no such block is dropped or reordered, its obj is the __self__ of the stack slot just below the block's level, is_async / start_line are the table's, and the entry for a context whose exit is in progress is appended last with is_exiting. NOT decided deductively: which with statement a handler offset belongs to and where an exit call sits in the bytecode (analyze_with_blocks' layout knowledge, currently_exiting_context): the CPython compiler is not formalised; the G1 legs decide it.",
+    explanation="Deductive sub-lemmas reported alongside the bounded stand-in (they do not make the property proved): _parse_varint and _parse_exception_table decode exactly the spec function of the 3.11+ table format for all byte strings; inspect_frame's handler-chain walk returns the outside-in chain of handlers covering f_lasti (relative to sorted, disjoint table entries); analyze_with_blocks returns a FRESH dict of FRESH Context templates that are obj-less and not exiting (3.12 and 3.10 configurations of the source); the 3.9/3.10 inspect_frame's block-stack walk (statements selected by pattern, 3.10 configuration) records exactly the SETUP_FINALLY entries among the first f_iblock block-stack entries, in order, each at position = number of such entries before it, handler scaled to bytes, level copied, reading no entry at or above f_iblock; _contexts_active_by_trickery joins them correctly: entry j of the result is the j-th block of the block stack whose handler is a key of the table, no such block is dropped or reordered, its obj is the __self__ of the stack slot just below the block's level, is_async / start_line are the table's, and the entry for a context whose exit is in progress is appended last with is_exiting. NOT decided deductively: which with statement a handler offset belongs to and where an exit call sits in the bytecode (analyze_with_blocks' layout knowledge, currently_exiting_context): the CPython compiler is not formalised; the G1 legs decide it.",
     claim="Bounded stand-in: at every suspension point of every program of the family, Frame.contexts equals the shadow log (identity of obj, "
           "is_async, is_exiting on exactly the exiting one) with no InspectionWarning; plus every exit site of the running interpreter's "
           "standard library resolves to the with block on its own source line. Sub-lemmas proved deductively are reported alongside and do "
           "not make this a proof.",
     note=BOUNDED_NOTE)
 PROPS["C02"] = dict(
-    level="exploration", contracts=["contracts.inspect311"], legs=[g1("running", PY312, "py312"), g1("running", PY311, "py311"),
+    level="exploration", contracts=["contracts.inspect311", "contracts.inspect310"],
+    unit_filter=lambda u: u.name != "C01.inspect_frame_310.blocks", legs=[g1("running", PY312, "py312"), g1("running", PY311, "py311"),
                                              g1("running", PY310, "py310", vendor=True),
                                              g1("running", PY39, "py39", thorough_only=True, vendor=True),
                                              g1("running", PY312, "py312", 3, True, stride=40)],
     technique=BOUNDED_TECH,
-    explanation='Deductive sub-lemma: inside inspect_frame (3.11+), a frame that is executing (stacktop == -1) has its value stack cut to the depth of the FIRST exception-table entry covering f_lasti, computed in the same validated attempt, 0 if none covers it (C02.trim, C02.first_covering_entry_scan); everything else is the bounded stand-in.',
+    explanation='Deductive sub-lemma: inside inspect_frame (3.11+), a frame that is executing (stacktop == -1) has its value stack cut to the depth of the FIRST exception-table entry covering f_lasti, computed in the same validated attempt, 0 if none covers it (C02.trim, C02.first_covering_entry_scan); on 3.9/3.10 (statements selected by pattern from the other inspect_frame, 3.10 configuration) a running frame\'s raw stack is cut to the deepest level any recorded block needs (0 without blocks) before any slot is turned into an object reference, NULL slots become None, and a suspended frame\'s slots are looked up among the frame\'s gc referents by address (never cast), None when no referent lives there; everything else is the bounded stand-in.',
     claim="Bounded stand-in: the same family probed from inside every __enter__/__exit__/__aenter__/__aexit__ invocation and every body call "
           "of running coroutines, generators and async generators (extract_since on the running frame): a manager being entered is not yet "
           "listed, one being exited is listed last with is_exiting and obj set, for every way of leaving the block.",
@@ -243,8 +244,8 @@ PROPS["C20"] = dict(
           "before: warning + sound fallback, and the next fault-free inspection (same frame, fresh frame of the same function) is exact again.",
     note=BOUNDED_NOTE + "; what gc.get_referents reports is interpreter behaviour")
 PROPS["C06"] = dict(
-    level="exploration", contracts=["contracts.inspect311", "contracts.lowlevel"], static=["contracts.c06_effects"],
-    unit_filter=lambda u: u.name in ("C07.inspect_frame_311", "C01.analyze_with_blocks"),
+    level="exploration", contracts=["contracts.inspect311", "contracts.lowlevel", "contracts.inspect310"], static=["contracts.c06_effects"],
+    unit_filter=lambda u: u.name in ("C07.inspect_frame_311", "C01.analyze_with_blocks", "C01.inspect_frame_310.blocks", "C02.inspect_frame_310.stack"),
     legs=[g1("twin", PY312, "py312"), g1("twin", PY311, "py311", thorough_only=True),
           dict(name="c07_preempt", cmd="PYTHONPATH={repo} " + PY312 + " legs/c07_preempt.py")],
     technique=BOUNDED_TECH + " (twin runs)",
